@@ -204,6 +204,14 @@ def run(ctx):
     n_tlc = len(recs)
     recs += generate(ctx.tier, ctx.seed)
     scs = [scenario(f'C11-{k}', r) for k, r in enumerate(recs)]
+    if ctx.tier == 'thorough':
+        # the repository's own tests under recording wrappers: every small mesh whose facets table they build
+        from .. import suite
+        ev = suite.record(ctx)
+        for j, e in enumerate(ev['conn']):
+            e.setdefault('errs', [])
+            scs.append({'id': f'C11-suite-{j}', 'recipe': {'driver': 'suite', 'test': e.pop('test', '')},
+                        'tags': {'kind': e['kind'], 'family': 'suite' if e['kind'] != 'wedge' else 'UW'}, 'events': [e]})
     ctx.validate('TraceC11', scs)
     keys = {json.dumps([r['kind'], r['variants'][0]]) for r in recs if _nontrivial(r)}
     ctx.notes['distinct_nontrivial'] = len(keys)
